@@ -62,6 +62,13 @@ CHECKS = {
     text="Each phrase of the statement is a clause (no error, dtype, strictly increasing, within adjusted bounds, contains bounds/zero/infinities/next-to-largest when requested, no subnormal/NaN unless requested, ULP-uniform up to one unit, Cartesian products) evaluated by TLC on the returned arrays (up to 1e6 elements, chunked with spec-computed chunk summaries). 9744 TLC-enumerated argument shapes (bounds shape x flags x size class x dtype).",
     note="Trusted: TLC, BigInt/IEEE, NumPy bit views, transport of chunk summaries (re-linked by the spec). Leniencies L1-L7 in Samples.tla (subnormal bound moved either way, unique=False order waived on the default path, huge required only for size >= 10...). Products checked at all cells when <= 3000, else sampled cells + corners.",
     design="6/C19"),
+
+ "C09": dict(
+    category="model_checking",
+    technique="TLA+ spec FAPipeline.tla (generation requests against process-global state) model-checked by TLC; TLC-enumerated and simulated request histories executed in forked real interpreters under several PYTHONHASHSEED values; merged (request, text digest) logs validated by Trace_Pipeline.tla",
+    text="The property is the functional dependency request -> text. TLC exhausts FAPipeline.tla over histories of <= 4 requests (leaky designs are negative controls), enumerates every sequence of length 3 over 8 cheap requests and samples length-40 sequences over the full alphabet (every (function, signature) of trace_arguments for python/numpy/cpp/stablehlo/xla_client/lax, debug=1 variants, user-defined composites that expand one definition several times, same-context repeats, the apmath lax requests); each history runs in a child forked from a warm interpreter, one interpreter per hash seed, plus forward/reverse/shuffled full passes; the trace spec rejects any request answered with two different texts (or exception messages).",
+    note="Trusted: TLC, sha256, os.fork isolation of process-global state. Scope: fresh Context per request (as results/update.py) and one request repeated in one context; different functions traced into one shared context are not judged. Seeds: 3 (quick) / 12 (thorough).",
+    design="6/C09"),
 }
 NA_REASON = "not built yet in this round (see DESIGN.md section 10 build order); no check is registered, nothing is claimed"
 
